@@ -89,7 +89,7 @@ ParseStep(ps, ln) ==
                       ELSE [ok |-> TRUE, type |-> bt, last |-> bt]
 
 AppendStep(ps, ln, r, newstate) ==
-   IF ps.stmt = 0 THEN Crash(ps, "AttributeError", "statement.steps")                                     \* self.statement.steps
+   IF ps.stmt = 0 THEN Crash(ps, "AttributeError", "statement.steps")   \* self.statement.steps
    ELSE LET i    == Len(ps.elems) + 1
             isbg == ps.elems[ps.stmt].k = "background"
         IN [ps EXCEPT !.elems = Append(@, [Elem("step", ps.line, ps.stmt, P1(ln), ln.kw, <<>>) EXCEPT !.st = r.type]),
@@ -104,7 +104,7 @@ BuildFeature(ps, ln) ==
               !.feature = i, !.cont = i, !.rule = 0, !.tags = <<>>, !.state = "feature"]
 
 BuildRule(ps, ln) ==
-   IF ps.feature = 0 THEN Crash(ps, "AttributeError", "feature.add_rule")                                  \* self.feature.add_rule
+   IF ps.feature = 0 THEN Crash(ps, "AttributeError", "feature.add_rule")   \* self.feature.add_rule
    ELSE LET i == Len(ps.elems) + 1 IN
         [ps EXCEPT !.elems = Append(@, Elem("rule", ps.line, ps.feature, P1(ln), ln.kw, ps.tags)),
                    !.rule = i, !.cont = i, !.stmt = i, !.lastStep = 0, !.tags = <<>>, !.state = "rule",
@@ -113,7 +113,7 @@ BuildRule(ps, ln) ==
                    !.contInh = IF ps.featBg THEN ps.featBgLast ELSE ""]
 
 BuildScenario(ps, ln, kind) ==
-   IF kind = "outline" /\ ps.cont = 0 THEN Crash(ps, "AttributeError", "container.add_scenario")                 \* self.scenario_container.add_scenario
+   IF kind = "outline" /\ ps.cont = 0 THEN Crash(ps, "AttributeError", "container.add_scenario")   \* self.scenario_container.add_scenario
    ELSE LET i == Len(ps.elems) + 1 IN
         [ps EXCEPT !.elems = Append(@, Elem(kind, ps.line, ps.cont, P1(ln), ln.kw, ps.tags)),
                    !.stmt = i, !.lastStep = 0, !.tags = <<>>, !.state = "scenario"]
@@ -127,7 +127,7 @@ BuildExamples(ps, ln) ==
 BuildBackground(ps, ln) ==
    IF ps.tags # <<>> THEN PErr(ps, "Background supports no tags")
    ELSE IF ps.cont # 0 /\ ps.contBg # "none" /\ ps.contBgLast # "" THEN PErr(ps, "Second Background")
-   ELSE IF ps.cont = 0 THEN Crash(ps, "AttributeError", "container.add_background")                                \* self.scenario_container.add_background
+   ELSE IF ps.cont = 0 THEN Crash(ps, "AttributeError", "container.add_background")   \* self.scenario_container.add_background
    ELSE LET i == Len(ps.elems) + 1
             infeat == ps.cont = ps.feature
         IN [ps EXCEPT !.elems = Append(@, Elem("background", ps.line, ps.cont, P1(ln), ln.kw, <<>>)),
@@ -155,7 +155,7 @@ ActContainer(ps, ln, c, own) ==
    LET sub == Sub(ps, ln, c) IN
    IF sub.h THEN sub.s
    ELSE IF c = "B" THEN BuildBackground(ps, ln)
-   ELSE IF own = 0 THEN Crash(ps, "AttributeError", "container.description")                                    \* self.rule.description
+   ELSE IF own = 0 THEN Crash(ps, "AttributeError", "container.description")   \* self.rule.description
    ELSE [ps EXCEPT !.elems[own].desc = Append(@, P1(ln))]
 
 ActTaggable(ps, ln, c) == LET sub == Sub(ps, ln, c) IN IF sub.h THEN sub.s ELSE Fail(ps)
@@ -167,7 +167,7 @@ ActScenario(ps0, ln, c) ==          \* also action_background
         IF ~r.ok THEN PErr(ps, "AND-STEP REQUIRES a previous step") ELSE AppendStep(ps, ln, r, "steps")
    ELSE LET sub == Sub(ps, ln, c) IN
         IF sub.h THEN sub.s
-        ELSE IF ps.stmt = 0 THEN Crash(ps, "AttributeError", "statement.description")                           \* self.statement.description
+        ELSE IF ps.stmt = 0 THEN Crash(ps, "AttributeError", "statement.description")   \* self.statement.description
         ELSE [ps EXCEPT !.elems[ps.stmt].desc = Append(@, P1(ln))]
 
 \* end of table: attach to the examples block or to the last step
@@ -176,12 +176,12 @@ CloseTable(ps) ==
         [ps EXCEPT !.elems[ps.ex].hastab = ps.hasTable, !.elems[ps.ex].rows = ps.trows,
                    !.ex = 0, !.hasTable = FALSE, !.trows = <<>>, !.state = "steps"]
    ELSE IF ps.stmt = 0 THEN Crash(ps, "AttributeError", "statement.steps")
-   ELSE IF ps.lastStep = 0 THEN Crash(ps, "IndexError", "statement.steps[-1]")                                \* self.statement.steps[-1]
+   ELSE IF ps.lastStep = 0 THEN Crash(ps, "IndexError", "statement.steps[-1]")   \* self.statement.steps[-1]
    ELSE [ps EXCEPT !.elems[ps.lastStep].hastab = ps.hasTable, !.elems[ps.lastStep].rows = ps.trows,
                    !.hasTable = FALSE, !.trows = <<>>, !.state = "steps"]
 
 TableRow(ps, ln) ==
-   IF ln.a = "open" /\ ps.feature = 0 THEN Crash(ps, "AttributeError", "feature.filename")                  \* self.feature.filename in the warning
+   IF ln.a = "open" /\ ps.feature = 0 THEN Crash(ps, "AttributeError", "feature.filename")   \* self.feature.filename in the warning
    ELSE IF ~ps.hasTable THEN [ps EXCEPT !.hasTable = TRUE, !.trows = <<[l |-> ps.line, cells |-> ln.ps]>>, !.state = "table"]
    ELSE IF Len(ln.ps) # Len(ps.trows[1].cells) THEN PErr(ps, "Malformed table")
    ELSE [ps EXCEPT !.trows = Append(@, [l |-> ps.line, cells |-> ln.ps]), !.state = "table"]
@@ -240,7 +240,7 @@ Feed(ps0, ln) ==
         ELSE IF ln.c \in {"#", "Lang"} THEN
              IF ps.state # "initial" \/ ps.tags # <<>> \/ ps.variant # "feature" THEN ps
              ELSE IF ln.c = "#" THEN ps
-             ELSE IF ln.a = "unknown" THEN Crash(ps, "KeyError", "languages[x]")                        \* i18n.languages[language]
+             ELSE IF ln.a = "unknown" THEN Crash(ps, "KeyError", "languages[x]")   \* i18n.languages[language]
              ELSE [ps EXCEPT !.lang = ln.lg]
         ELSE Act(ps, ln, Eff(ps, ln))
 
@@ -266,7 +266,7 @@ TagWords(ps, lines, i) ==
 RunTags(lines) ==
    LET ps == Init0("tags") IN
    IF lines = <<>> \/ (Len(lines) = 1 /\ lines[1].c = "_" ) THEN ps                     \* `if not text: return []`
-   ELSE IF lines[1].c # "Tags" \/ lines[1].ind # 0 THEN Crash(ps, "AssertionError", "assert")      \* assert line.startswith("@")
+   ELSE IF lines[1].c # "Tags" \/ lines[1].ind # 0 THEN Crash(ps, "AssertionError", "assert")   \* assert line.startswith("@")
    ELSE TagWords(ps, lines, 1)
 
 \* ---------------------------------------------------------------- whole runs
